@@ -1,0 +1,64 @@
+//go:build verif
+
+package dagprocessor
+
+// Machine-checked contracts for /verif (read as text by the VC generator; no code).
+//
+// nRel counts the calls of the Released callback made by the processor itself (not those made by the ordering
+// buffer), gRelEv / gRelPeer / gRelErr record the last one; nPush counts the events handed to the ordering buffer;
+// nOrigRel counts the calls of the application's original Released callback.
+//@ ghost nRel int
+//@ ghost gRelEv dag.Event
+//@ ghost gRelPeer string
+//@ ghost gRelErr error
+//@ ghost nPush int
+//@ ghost gPushEv dag.Event
+//@ ghost nOrigRel int
+//@ ghost gOrigRelEv dag.Event
+//@ ghost gOrigRelErr error
+//@ ghost gHL int
+//@
+//@ funcfield EventCallback.Released
+//@   params e, peer, err
+//@   modifies nRel, gRelEv, gRelPeer, gRelErr
+//@   ghost nRel = old(nRel) + 1
+//@   ghost gRelEv = e
+//@   ghost gRelPeer = peer
+//@   ghost gRelErr = err
+//@ funcfield Callback.HighestLamport
+//@   modifies gHL
+//@   ghost gHL = result
+//@
+//@ // process(peer, event, err): an event that failed validation is reported released once with that error and goes
+//@ // nowhere else; an event whose Lamport time is more than the buffer's event limit plus one above the highest known
+//@ // Lamport time is reported released once with ErrSpilledEvent and is NOT handed to the ordering buffer (32-bit
+//@ // wrap-around can only make the test stricter); every other event is handed to the ordering buffer exactly once and
+//@ // is not released by process itself (the buffer releases it)
+//@ func (*Processor).process
+//@   requires f != nil && f.callback.Event.Released != nil && f.callback.HighestLamport != nil && event != nil && bufinv(f.buffer) && event.Size() >= 0 && f.buffer.incompletes.lru.weight + event.Size() <= 18446744073709551615
+//@   modifies nRel, gRelEv, gRelPeer, gRelErr, gHL, nPush, gPushEv, all(dagordering.event).released, all(dagordering.event).err, gConn[*], gProcessed[*], gRelCnt[*], f.buffer.incompletes.lru.items[*], f.buffer.incompletes.lru.weight, lel[f.buffer.incompletes.lru.evictList], llen[f.buffer.incompletes.lru.evictList], lidx[*], lown[*], nEvict, gEvictKey, gEvictVal, all(simplewlru.entry).value, all(simplewlru.entry).weight
+//@   at call dagordering.EventsBuffer).PushEvent[1] ghost nPush = nPush + 1 after
+//@   at call dagordering.EventsBuffer).PushEvent[1] ghost gPushEv = event after
+//@   ensures  [invalid] resErr != nil ==> nRel == old(nRel) + 1 && gRelEv == event && gRelPeer == peer && gRelErr == resErr && nPush == old(nPush) && len(toRequest) == 0
+//@   ensures  [far] resErr == nil && event.Lamport() > gHL + 1 + f.cfg.EventsBufferLimit.Num ==> nPush == old(nPush) && nRel == old(nRel) + 1 && gRelEv == event && gRelPeer == peer && gRelErr == eventcheck.ErrSpilledEvent && len(toRequest) == 0
+//@   ensures  [spill] resErr == nil && nPush == old(nPush) ==> nRel == old(nRel) + 1 && gRelEv == event && gRelErr == eventcheck.ErrSpilledEvent
+//@   ensures  [push] resErr == nil && event.Lamport() <= (gHL + (1 + f.cfg.EventsBufferLimit.Num) % 4294967296) % 4294967296 ==> nPush == old(nPush) + 1 && gPushEv == event && nRel == old(nRel)
+//@   ensures  [once] nPush <= old(nPush) + 1 && nRel <= old(nRel) + 1 && (nPush - old(nPush)) + (nRel - old(nRel)) == 1
+//@   ensures  [request] len(toRequest) != 0 ==> toRequest == event.Parents() && nPush == old(nPush) + 1
+//@   ensures  bufinv(f.buffer)
+//@
+//@ // the wrapper that New installs around the application's Released callback: the event's share (one event, its size)
+//@ // is returned to the semaphore, then the original callback (if any) is called once with the same arguments
+//@ funcfield New$1.released
+//@   params e, peer, err
+//@   modifies nOrigRel, gOrigRelEv, gOrigRelErr
+//@   ghost nOrigRel = old(nOrigRel) + 1
+//@   ghost gOrigRelEv = e
+//@   ghost gOrigRelErr = err
+//@ func New$1
+//@   requires e != nil && f != nil && f.eventsSemaphore != nil && e.Size() >= 0
+//@   modifies f.eventsSemaphore.processing, warnings, nOrigRel, gOrigRelEv, gOrigRelErr
+//@   ensures  [normal] !old(f.eventsSemaphore.processing.Num < 1 || f.eventsSemaphore.processing.Size < e.Size()) ==> f.eventsSemaphore.processing.Num == old(f.eventsSemaphore.processing.Num) - 1 && f.eventsSemaphore.processing.Size == old(f.eventsSemaphore.processing.Size) - e.Size() && warnings == old(warnings)
+//@   ensures  [over] old(f.eventsSemaphore.processing.Num < 1 || f.eventsSemaphore.processing.Size < e.Size()) ==> f.eventsSemaphore.processing.Num == 0 && f.eventsSemaphore.processing.Size == 0
+//@   ensures  [forward] released != nil ==> nOrigRel == old(nOrigRel) + 1 && gOrigRelEv == e && gOrigRelErr == err
+//@   ensures  [none] released == nil ==> nOrigRel == old(nOrigRel)
